@@ -165,24 +165,27 @@ Definition pendq (q : list preq) : list (N * N) := flat_map (fun p => map (pair 
 Lemma pendq_app : forall a b, pendq (a ++ b) = pendq a ++ pendq b.
 Proof. intros. unfold pendq. apply flat_map_app. Qed.
 
+(* e: the entries examined so far that could not be served (`skipped`), in the order examined *)
 Fixpoint scan_q (t e : list preq) (lk : list rid) (dd : list (N * N)) : list preq * option grant :=
   match t with
   | [] => (e, None)
   | p :: t' =>
       let '(rooms', g) := try_rooms (length (p_rooms p)) (p_rooms p) lk (alive dd p) in
       match g with
-      | Some r => (requeue (t' ++ e) p rooms', Some (p_c p, p_gen p, r))
+      | Some r => (e ++ requeue t' p rooms', Some (p_c p, p_gen p, r))
       | None => scan_q t' (requeue e p rooms') lk dd
       end
   end.
 Lemma requeue_app : forall a b p rs, requeue (a ++ b) p rs = a ++ requeue b p rs.
 Proof. intros. unfold requeue. destruct rs; [reflexivity | rewrite app_assoc; reflexivity]. Qed.
-Lemma acquire_scan : forall t e lk dd, acquire (length t) (t ++ e) lk dd = scan_q t e lk dd.
+Lemma skip_requeue : forall sk p rs, skip sk p rs = requeue sk p rs.
+Proof. reflexivity. Qed.
+Lemma acquire_scan : forall t e lk dd, acquire (length t) t e lk dd = scan_q t e lk dd.
 Proof.
-  induction t as [|p t IH]; intros e lk dd; [reflexivity|].
-  cbn [length app acquire scan_q].
+  induction t as [|p t IH]; intros e lk dd; [cbn; rewrite app_nil_r; reflexivity|].
+  cbn [length acquire scan_q].
   destruct (try_rooms (length (p_rooms p)) (p_rooms p) lk (alive dd p)) as [rooms' g].
-  destruct g; [reflexivity|]. rewrite requeue_app. apply IH.
+  destruct g; [reflexivity|]. rewrite skip_requeue. apply IH.
 Qed.
 
 (* a peer entry all of whose rooms are locked, if its channel is alive *)
@@ -243,20 +246,25 @@ Proof.
     assert (Hsame : same_peer pn p) by (split; reflexivity).
     destruct g as [r|].
     + inversion H; subst q' og. clear H. destruct (S3 r eq_refl) as (Hf & Hl & Hr).
+      (* the same entries as in `requeue (t ++ e) p rooms'`, in another order *)
+      assert (F1 : forall x, In x (e ++ requeue t p rooms') <-> In x (requeue (t ++ e) p rooms')).
+      { intros x. unfold requeue. destruct rooms'; repeat rewrite in_app_iff; tauto. }
+      assert (F2 : forall x, cntP (pendq (e ++ requeue t p rooms')) x = cntP (pendq (requeue (t ++ e) p rooms')) x).
+      { intros x. unfold requeue. destruct rooms'; repeat rewrite pendq_app; repeat rewrite cntP_app; lia. }
       repeat split.
       * discriminate.
       * inversion H; subst. exact Hf.
       * inversion H; subst. exists p. repeat split; auto. left. reflexivity.
-      * intros p' Hp'. apply in_requeue in Hp'. destruct Hp' as [Hp'|[_ Hp']].
+      * intros p' Hp'. apply F1 in Hp'. apply in_requeue in Hp'. destruct Hp' as [Hp'|[_ Hp']].
         -- exists p'. split; [right; exact Hp'|]. split; [split; reflexivity | apply incl_refl].
         -- subst p'. exists p. split; [left; reflexivity|]. split; [exact Hsame|].
            intros y Hy. apply S1 in Hy. destruct Hy as [Hy|[]]. exact Hy.
       * intros p0 Hp0 Hal r0 Hr0. cbn [app] in Hp0. destruct Hp0 as [Hp0|Hp0].
         -- subst p0. destruct (S4 Hal r0 (or_introl Hr0)) as [Hs|Hin].
            ++ inversion Hs; subst. left. reflexivity.
-           ++ right. exists pn. split; [apply in_requeue_new with (r := r0); exact Hin|]. split; [exact Hsame | exact Hin].
-        -- right. exists p0. split; [apply in_requeue_l; exact Hp0|]. split; [split; reflexivity | exact Hr0].
-      * intros x. rewrite pendq_requeue. cbn [app]. change (pendq (p :: t ++ e)) with (map (pair (p_c p)) (p_rooms p) ++ pendq (t ++ e)).
+           ++ right. exists pn. split; [apply F1; apply in_requeue_new with (r := r0); exact Hin|]. split; [exact Hsame | exact Hin].
+        -- right. exists p0. split; [apply F1; apply in_requeue_l; exact Hp0|]. split; [split; reflexivity | exact Hr0].
+      * intros x. rewrite F2, pendq_requeue. cbn [app]. change (pendq (p :: t ++ e)) with (map (pair (p_c p)) (p_rooms p) ++ pendq (t ++ e)).
         rewrite cntP_app. destruct x as [c0 r0]. rewrite !cntP_map_pair. cbn [g_is]. unfold pair_eqb. cbn [fst snd].
         specialize (S5 r0). cbn [og_is] in S5. change (cntN [] r0) with 0 in S5.
         destruct (N.eqb (p_c p) c0); cbn [andb]; [lia|]. cbn [ind]. lia.
